@@ -147,8 +147,13 @@ def run_case(ctx, desc):
     nontrivial = len(opax) > 1 or any(has_lead(desc["pos"][a], to_eff[a]) for a in opax)
     ckey = ("model", shifts, weighted, len(desc["extra"]), "to" in call, dt)
     ctx.judged(ckey, nontrivial)
+    # cumsum takes `axis: Union[str, Iterable[str]]`: a list, a tuple or a one-shot iterator name the same axes
+    axis_arg = call["axis"]
+    if isinstance(axis_arg, list):
+        how = desc["data"]["seed"] % 4
+        axis_arg = tuple(axis_arg) if how == 1 else iter(list(axis_arg)) if how == 2 else axis_arg
     try:
-        r = g.cumsum(da, call["axis"], **kw)
+        r = g.cumsum(da, axis_arg, **kw)
     except Exception as e:
         ctx.violation("well-posed-call-returns", f"cumsum raised {type(e).__name__}: {str(e)[:300]}")
         return
